@@ -22,6 +22,7 @@ Inductive item :=
 Inductive rel :=
 | RTable (t : tref) (alias : option string)
 | RDerived (q : query) (alias : string)
+| RGroup (a b : rel)                           (* ( a JOIN b ON ... ) used as a join operand *)
 with query :=
 | QSelect (items : list item) (from : list rel) (comma_join : bool) (wh : option (string * query))
           (* WHERE c IN (sub-query) *)
@@ -34,6 +35,10 @@ Inductive stmt :=
 | SView (tgt : tref) (q : query)
 | SQuery (q : query)
 | SNoData (kind : nat).     (* DELETE / TRUNCATE / SHOW / USE ... *)
+
+(** parenthesised join groups contribute their members to the enclosing FROM scope *)
+Fixpoint rels_flat (r : rel) : list rel :=
+  match r with RGroup a b => rels_flat a ++ rels_flat b | _ => [r] end.
 
 (** * Printed names, as the library reports them *)
 Definition placeholder : string := "<default>".
@@ -61,7 +66,8 @@ Fixpoint q_reads (fuel : nat) (ds : string) (ctes : list string) (q : query) : l
                                              | Some _ => [tref_str ds t]
                                              end
                              | RDerived q' _ => q_reads k ds ctes q'
-                             end) from
+                             | RGroup _ _ => []
+                             end) (flat_map rels_flat from)
           ++ match wh with Some (_, sq) => q_reads k ds ctes sq | None => [] end
       | QUnion a b => q_reads k ds ctes a ++ q_reads k ds ctes b
       | QWith n c b => q_reads k ds ctes c ++ q_reads k ds (n :: ctes) b
@@ -71,10 +77,16 @@ Fixpoint q_reads (fuel : nat) (ds : string) (ctes : list string) (q : query) : l
 Fixpoint q_size (q : query) : nat :=
   match q with
   | QSelect _ from _ wh =>
-      S (fold_right (fun r acc => (match r with RDerived q' _ => q_size q' | RTable _ _ => 1 end) + acc) 0 from
+      S ((fix rs (l : list rel) : nat := match l with [] => 0 | r :: t => rel_size r + rs t end) from
          + match wh with Some (_, sq) => q_size sq | None => 0 end)
   | QUnion a b => S (q_size a + q_size b)
   | QWith _ c b => S (q_size c + q_size b)
+  end
+with rel_size (r : rel) : nat :=
+  match r with
+  | RTable _ _ => 1
+  | RDerived q _ => S (q_size q)
+  | RGroup a b => S (rel_size a + rel_size b)
   end.
 
 Definition spec_reads (ds : string) (s : stmt) : list string :=
@@ -205,7 +217,8 @@ Fixpoint q_cols (fuel : nat) (ds : string) (ctes : list (string * list colspec))
                               end
                           | RDerived q' alias =>
                               {| b_alias := Some alias; b_names := []; b_rel := RelCols (q_cols k ds ctes q') |}
-                          end) from in
+                          | RGroup _ _ => {| b_alias := None; b_names := []; b_rel := RelCols [] |}
+                          end) (flat_map rels_flat from) in
           flat_map (item_cols scope) items
       | QUnion a b => zip_union (q_cols k ds ctes a) (q_cols k ds ctes b)
       | QWith n c b => q_cols k ds ((n, q_cols k ds ctes c) :: ctes) b
